@@ -1166,5 +1166,275 @@ Proof.
   apply pnc_triple. exact pnc_wigm_loop.
 Qed.
 
+
+(* ---------- a batch of excluded candidates: all their ballots move, then their tallies are zeroed ---------- *)
+Definition srcf (cids : list Z) (i : Z) : bool := existsb (Z.eqb i) cids.
+Definition srcvotes (src : Z -> bool) (l : list cand) : Z := fold_right (fun c acc => (if src (cid c) then R (cvote c) else 0) + acc) 0 l.
+Definition srcstand (src : Z -> bool) (bs : list ballot) (l : list cand) : Z :=
+  fold_right (fun c acc => (if src (cid c) then stand bs (cid c) else 0) + acc) 0 l.
+
+Lemma fold_set_vote_frame x (l : list Z) : forall s : est,
+  let s' := fold_left (fun s i => set_vote A i x s) l s in
+  cands s' = map (fun c => if existsb (Z.eqb (cid c)) l then with_vote c x else c) (cands s) /\
+  ballots s' = ballots s /\ quota s' = quota s /\ exhausted s' = exhausted s /\ actions s' = actions s /\ crash s' = crash s.
+Proof.
+  induction l as [|i l IH]; intros s; cbn [fold_left existsb].
+  - split; [rewrite map_id; reflexivity|repeat split].
+  - destruct (IH (set_vote A i x s)) as (E1 & E2 & E3 & E4 & E5 & E6). cbv zeta in *.
+    split; [|repeat split; assumption]. rewrite E1. unfold set_vote, upd, upd_cand. cbn [cands set_cands]. rewrite map_map. apply map_ext.
+    intros c. destruct (cid c =? i) eqn:E; cbn [cid with_vote orb]; [destruct (existsb _ l); reflexivity|reflexivity].
+Qed.
+
+Lemma tsum_map_zero (src : Z -> bool) x (l : list cand) : R x = 0 ->
+  fold_right (fun c acc => R (cvote c) + acc) 0 (map (fun c : cand => if src (cid c) then with_vote c x else c) l) =
+  fold_right (fun c acc => R (cvote c) + acc) 0 l - srcvotes src l.
+Proof.
+  intros Hx. unfold srcvotes. induction l as [|c l IH]; [reflexivity|]. cbn [map fold_right]. rewrite IH.
+  destruct (src (cid c)); cbn [cvote with_vote]; lia.
+Qed.
+
+Lemma count_one (l : list cand) i x : NoDup (map (@cid A) l) -> In i (map (@cid A) l) ->
+  fold_right (fun c acc => (if cid c =? i then x else 0) + acc) 0 l = x.
+Proof.
+  induction l as [|c l IH]; intros Hnd Hin; [contradiction|]. cbn [map] in *. inversion Hnd as [|? ? Hn Hnd']; subst. cbn [fold_right].
+  destruct Hin as [E|Hin].
+  - rewrite E, Z.eqb_refl. assert (Hz: fold_right (fun c0 acc => (if cid c0 =? i then x else 0) + acc) 0 l = 0).
+    { clear IH Hnd Hnd'. induction l as [|d l IHl]; [reflexivity|]. cbn [fold_right map In] in *.
+      destruct (cid d =? i) eqn:Ed; [exfalso; apply Hn; left; lia|]. rewrite IHl; [lia|]. intros H; apply Hn; right; exact H. }
+    rewrite Hz. lia.
+  - destruct (cid c =? i) eqn:Ec; [exfalso; apply Hn; assert (cid c = i) by lia; congruence|]. rewrite (IH Hnd' Hin). lia.
+Qed.
+Lemma count_zero (l : list cand) i x : ~ In i (map (@cid A) l) ->
+  fold_right (fun c acc => (if cid c =? i then x else 0) + acc) 0 l = 0.
+Proof.
+  induction l as [|c l IH]; intros Hn; [reflexivity|]. cbn [fold_right map In] in *.
+  destruct (cid c =? i) eqn:Ec; [exfalso; apply Hn; left; lia|]. rewrite IH; [lia|]. intros H; apply Hn; right; exact H.
+Qed.
+
+Lemma fsum_ext (f g : cand -> Z) (l : list cand) : (forall c, In c l -> f c = g c) ->
+  fold_right (fun c acc => f c + acc) 0 l = fold_right (fun c acc => g c + acc) 0 l.
+Proof. induction l as [|c l IH]; intros H; [reflexivity|]. cbn [fold_right]. rewrite (H c (or_introl eq_refl)), IH; [reflexivity|]. intros c' Hc'. apply H; right; exact Hc'. Qed.
+Lemma fsum_add (f g : cand -> Z) (l : list cand) :
+  fold_right (fun c acc => (f c + g c) + acc) 0 l = fold_right (fun c acc => f c + acc) 0 l + fold_right (fun c acc => g c + acc) 0 l.
+Proof. induction l as [|c l IH]; [reflexivity|]. cbn [fold_right]. rewrite IH. lia. Qed.
+Lemma fsum_zero (l : list cand) : fold_right (fun (c : cand) acc => 0 + acc) 0 l = 0.
+Proof. induction l as [|c l IH]; [reflexivity|]. cbn [fold_right]. rewrite IH. lia. Qed.
+
+Lemma selsum_srcstand src (l : list cand) bs : NoDup (map (@cid A) l) -> (forall i, src i = true -> In i (map (@cid A) l)) ->
+  selsum src bs = srcstand src bs l.
+Proof.
+  intros Hnd Hsrc. unfold srcstand. induction bs as [|b t IH].
+  - cbn [selsum fold_right]. rewrite (fsum_ext _ (fun _ => 0) l); [rewrite fsum_zero; reflexivity|]. intros c _. destruct (src (cid c)); reflexivity.
+  - rewrite selsum_cons, IH.
+    rewrite (fsum_ext (fun c => if src (cid c) then stand (b :: t) (cid c) else 0)
+                      (fun c => (if src (cid c) then (if top_is A (cid c) b then bval b else 0) else 0) + (if src (cid c) then stand t (cid c) else 0)) l).
+    2:{ intros c _. rewrite stand_cons. destruct (src (cid c)); lia. }
+    rewrite fsum_add. f_equal. unfold selS, top_is. destruct (top_rank A b) as [i|].
+    + rewrite (fsum_ext _ (fun c => if cid c =? i then (if src i then bval b else 0) else 0) l).
+      2:{ intros c _. destruct (cid c =? i) eqn:E.
+          - assert (cid c = i) by lia. subst i. rewrite Z.eqb_refl. reflexivity.
+          - assert (E': (i =? cid c) = false) by lia. rewrite E'. destruct (src (cid c)); reflexivity. }
+      destruct (src i) eqn:Es.
+      * rewrite (count_one l i (bval b) Hnd (Hsrc i Es)). reflexivity.
+      * rewrite (fsum_ext _ (fun _ => 0) l); [rewrite fsum_zero; reflexivity|]. intros c _. destruct (cid c =? i); reflexivity.
+    + rewrite (fsum_ext _ (fun _ => 0) l); [rewrite fsum_zero; reflexivity|]. intros c _. destruct (src (cid c)); reflexivity.
+Qed.
+
+
+Lemma existsb_eqb_in i (l : list Z) : existsb (Z.eqb i) l = true <-> In i l.
+Proof. rewrite existsb_exists. split; [intros (x & Hx & E); assert (i = x) by lia; subst; exact Hx|intros H; exists i; split; [exact H|lia]]. Qed.
+
+Definition relv (src : Z -> bool) (l0 l1 : list cand) : Prop :=
+  Forall2 (fun c0 c1 : cand => cid c1 = cid c0 /\ (src (cid c0) = true -> cvote c1 = cvote c0)) l0 l1.
+Lemma relv_refl src l : relv src l l.
+Proof. induction l; constructor; auto. Qed.
+Lemma relv_upd src l0 l1 i (f : cand -> cand) : (forall c, cid (f c) = cid c) -> src i = false -> relv src l0 l1 -> relv src l0 (upd_cand A i f l1).
+Proof.
+  intros Hf Hs H. unfold upd_cand. induction H as [|c0 c1 l0 l1 [E1 E2] _ IH]; cbn [map]; constructor; [|exact IH].
+  destruct (cid c1 =? i) eqn:E; [|split; assumption]. split; [rewrite Hf; exact E1|]. intros Hsrc. assert (cid c1 = i) by lia. congruence.
+Qed.
+Lemma relv_srcvotes src l0 l1 : relv src l0 l1 -> srcvotes src l1 = srcvotes src l0.
+Proof. unfold srcvotes. induction 1 as [|c0 c1 l0 l1 [E1 E2] _ IH]; [reflexivity|]. cbn [fold_right]. rewrite IH, E1. destruct (src (cid c0)); [rewrite E2; reflexivity|reflexivity]. Qed.
+
+Lemma srcstand_le_votes src (s : est) : Good B s -> srcstand src (ballots s) (cands s) <= srcvotes src (cands s).
+Proof.
+  intros G. unfold srcstand, srcvotes. assert (H: forall c, In c (cands s) -> stand (ballots s) (cid c) <= R (cvote c)).
+  { intros c Hc. destruct (g_tally _ _ G c Hc) as [E|[_ E]]; [lia|]. rewrite E. exact (g_nonneg _ _ G c Hc). }
+  revert H. generalize (cands s). induction l as [|c l IH]; intros H; [cbn; lia|]. cbn [fold_right].
+  pose proof (H c (or_introl eq_refl)). pose proof (IH (fun c' Hc' => H c' (or_intror Hc'))). destruct (src (cid c)); lia.
+Qed.
+
+Lemma gh_batch_core keep (cids : list Z) (s : est) :
+  (forall c x, keep (with_vote c x) = keep c) -> (forall c, keep c = true -> cont c = true) -> (forall c, keep c = true -> cst c <> Defeated) ->
+  GH s -> crashed s = false ->
+  (forall i, In i cids -> In i (map (@cid A) (cands s)) /\ Sat s i isD) ->
+  let s1 := for_ballots A (transfer A keep) (top_in A cids) s in
+  let s2 := fold_left (fun s i => set_vote A i (V0 A) s) cids s1 in
+  GH s2 /\ crashed s2 = false.
+Proof.
+  intros Hkv Hkc Hkd [G H] Hc Hb s1 s2. set (src := srcf cids).
+  assert (Hsrc_in: forall i, src i = true -> In i cids) by (intros i; apply existsb_eqb_in).
+  set (Q := fun t : est => relv src (cands s) (cands t)).
+  assert (Hmv := move_plain keep src Q s Hkv). cbv zeta in Hmv.
+  change (for_ballots A (transfer A keep) (selS src) s) with s1 in Hmv.
+  destruct Hmv as (HL & HQ1 & Hsf & Hall & mn & Hm1 & Hm2 & Hm3); try assumption.
+  - intros t c x HQ Hs. unfold Q, add_vote, upd. cbn [cands set_cands]. apply relv_upd; [reflexivity|exact Hs|exact HQ].
+  - intros t x HQ. exact HQ.
+  - intros t bs HQ. exact HQ.
+  - apply relv_refl.
+  - intros c Hcin Hk. split; [apply Hkc; exact Hk|]. destruct (src (cid c)) eqn:Es; [|reflexivity]. exfalso.
+    destruct (Hb (cid c) (Hsrc_in _ Es)) as [_ HS]. pose proof (HS c Hcin eq_refl) as HD. unfold isD in HD. cbn in HD. exact (Hkd c Hk HD).
+  - destruct Hsf as (Eq & Ea & _ & _ & _ & _ & Ecr).
+    destruct (fold_set_vote_frame (V0 A) cids s1) as (F1 & F2 & F3 & F4 & F5 & F6). fold s2 in F1, F2, F3, F4, F5, F6.
+    assert (HV0: R (V0 A) = 0) by (unfold V0; rewrite (r_of_int A S ZL); lia).
+    assert (Hstl1: stl (cands s1) = stl (cands s)) by (apply stl_for_ballots_plain).
+    assert (HD1: forall c, In c (cands s1) -> src (cid c) = true -> cst c = Defeated).
+    { intros c Hc1 Es. destruct (Hb (cid c) (Hsrc_in _ Es)) as [_ HS]. exact (sat_stl s s1 (cid c) isD Hstl1 HS c Hc1 eq_refl). }
+    destruct HL as [L1 L2 L3 L4 L5 L6 L7].
+    assert (Htot: tot_votes A S ZL s2 <= tot_votes A S ZL s1 - mn).
+    { unfold tot_votes. rewrite F1. change (fun c : cand => if existsb (Z.eqb (cid c)) cids then with_vote c (V0 A) else c) with (fun c : cand => if src (cid c) then with_vote c (V0 A) else c).
+      rewrite (tsum_map_zero src (V0 A) (cands s1) HV0). rewrite (relv_srcvotes src _ _ HQ1).
+      pose proof (srcstand_le_votes src s G) as Hle.
+      rewrite <- (selsum_srcstand src (cands s) (ballots s) (g_nd _ _ G)) in Hle; [lia|].
+      intros i Hi. exact (proj1 (Hb i (Hsrc_in i Hi))). }
+    split; [split|unfold crashed; rewrite F6; exact (eq_trans (f_equal (fun o => match o with Some _ => true | None => false end) Ecr) Hc)].
+    + constructor.
+      * rewrite F1, map_map. erewrite map_ext; [exact L1|]. intros c. destruct (existsb _ cids); reflexivity.
+      * rewrite F2. exact L2.
+      * rewrite F1, F2. intros c' Hc'. apply in_map_iff in Hc'. destruct Hc' as (c & <- & Hc1). change (existsb (Z.eqb (cid c)) cids) with (src (cid c)). destruct (src (cid c)) eqn:Es.
+        -- left. cbn [cid cvote with_vote]. rewrite HV0. symmetry. apply (stand_nosel src); assumption.
+        -- exact (L4 c Hc1 Es).
+      * pose proof (g_total _ _ G). unfold Gregory.total in *. rewrite F4. lia.
+      * rewrite F1, F3, Eq. intros c' Hc' Hp. apply in_map_iff in Hc'. destruct Hc' as (c & <- & Hc1). change (existsb (Z.eqb (cid c)) cids) with (src (cid c)) in *. destruct (src (cid c)) eqn:Es; [|exact (L5 c Hc1 Hp)].
+        rewrite pend_with_vote in Hp. unfold is_pending, in_state in Hp. rewrite (HD1 c Hc1 Es) in Hp. discriminate.
+      * rewrite F1. intros c' Hc' Hw. apply in_map_iff in Hc'. destruct Hc' as (c & <- & Hc1). change (existsb (Z.eqb (cid c)) cids) with (src (cid c)) in *. destruct (src (cid c)) eqn:Es; [|exact (L6 c Hc1 Hw)].
+        cbn [cst with_vote] in Hw. rewrite (HD1 c Hc1 Es) in Hw. discriminate.
+      * rewrite F3, Eq. exact (g_quota _ _ G).
+      * rewrite F1. intros c' Hc'. apply in_map_iff in Hc'. destruct Hc' as (c & <- & Hc1). change (existsb (Z.eqb (cid c)) cids) with (src (cid c)). destruct (src (cid c)); [cbn [cvote with_vote]; lia|exact (L7 c Hc1)].
+    + rewrite F5, Ea. exact H.
+Qed.
+
+
+(* ---------- batches chosen in one statement group, defeated in the next, transferred in a third ---------- *)
+Definition BatchIn (s : est) : Prop := forall i, In i (lv_batch s) -> In i (map (@cid A) (cands s)).
+Definition BatchD (s : est) : Prop := forall i, In i (lv_batch s) -> In i (map (@cid A) (cands s)) /\ Sat s i isD.
+
+Lemma lvb_log t m (s : est) : lv_batch (log_action A cfg t m s) = lv_batch s.
+Proof. unfold log_action. destruct (is_log t); [reflexivity|]. destruct (is_round t); reflexivity. Qed.
+Lemma lvb_defeat i m (s : est) : lv_batch (defeat A cfg i m s) = lv_batch s.
+Proof. unfold defeat. destruct (find_cand A (cands s) i); [rewrite lvb_log|]; reflexivity. Qed.
+Lemma lvb_fold_defeat m (l : list cand) : forall s : est, lv_batch (fold_left (fun s c => defeat A cfg (cid c) m s) l s) = lv_batch s.
+Proof. induction l as [|c l IH]; intros s; cbn [fold_left]; [reflexivity|]. rewrite IH. apply lvb_defeat. Qed.
+
+Lemma batchin_of_hopefuls (s s' : est) (l : list cand) : cands s' = cands s -> lv_batch s' = map (@cid A) l ->
+  Forall (fun c => In c (hopefuls A s)) l -> BatchIn s'.
+Proof.
+  intros Hc Hb Hl i Hi. rewrite Hb in Hi. apply in_map_iff in Hi. destruct Hi as (c & <- & Hcl). rewrite Forall_forall in Hl.
+  rewrite Hc. apply in_map. specialize (Hl c Hcl). unfold hopefuls in Hl. apply filter_In in Hl. exact (proj1 Hl).
+Qed.
+
+Lemma cands_of_has (s : est) cids i : In i cids -> In i (map (@cid A) (cands s)) -> exists c, In c (cands_of A s cids) /\ cid c = i.
+Proof.
+  intros Hi Hin. destruct (find_cand_in A _ _ Hin) as [c Ef]. exists c. split; [|exact (proj2 (find_cand_In _ _ _ Ef))].
+  unfold cands_of. apply in_flat_map. exists i. split; [exact Hi|]. rewrite Ef. left; reflexivity.
+Qed.
+
+Lemma gh_defeat_batch_order msg (s : est) : GH s -> BatchIn s ->
+  let s' := defeat_batch_in_ballot_order A cfg msg s in
+  GH s' /\ crashed s' = crashed s /\ BatchD s'.
+Proof.
+  intros H HB. unfold defeat_batch_in_ballot_order. cbv zeta.
+  assert (Hl: forall c, In c (by_order A (cands_of A s (lv_batch s))) -> In (cid c) (map (@cid A) (cands s))).
+  { intros c Hc. unfold by_order in Hc. apply py_sorted_in in Hc. apply in_map. exact (proj1 (cands_of_in A s _ c Hc)). }
+  destruct (fold_defeat_facts msg _ s H Hl) as (H1 & Ecr & Eid & _ & HD). cbv zeta in *.
+  split; [exact H1|]. split; [exact Ecr|]. intros i Hi. rewrite lvb_fold_defeat in Hi. split; [rewrite Eid; exact (HB i Hi)|].
+  destruct (cands_of_has s (lv_batch s) i Hi (HB i Hi)) as (c & Hc & Ec). rewrite <- Ec. apply HD. unfold by_order. apply py_sorted_in. exact Hc.
+Qed.
+
+Lemma gh_transfer_batch keep (s : est) :
+  (forall c x, keep (with_vote c x) = keep c) -> (forall c, keep c = true -> cont c = true) -> (forall c, keep c = true -> cst c <> Defeated) ->
+  GH s -> crashed s = false -> BatchD s ->
+  GH (transfer_batch A cfg keep s) /\ crashed (transfer_batch A cfg keep s) = false.
+Proof.
+  intros Hkv Hkc Hkd H Hc HB. unfold transfer_batch. cbv zeta.
+  destruct (gh_batch_core keep (lv_batch s) s Hkv Hkc Hkd H Hc HB) as [H2 Hc2].
+  split; [apply gh_log; exact H2|rewrite crashed_log; exact Hc2].
+Qed.
+
+
+(* ---------- wigm-prf / wigm-prf-batch ---------- *)
+Notation T3 := (triple est (@crashed A)).
+Definition GNI (s : est) : Prop := GN s /\ BatchIn s.
+Definition GND (s : est) : Prop := GN s /\ BatchD s.
+
+Lemma t_do_gn f (P' : est -> Prop) (Q' : est -> Prop) :
+  (forall s, P' s -> GN s) -> (forall s, P' s -> crashed (f s) = false -> GH (f s) /\ Q' (f s)) ->
+  T3 P' (Do f) (fun s => GN s /\ Q' s) GN GN.
+Proof. intros H1 H2. apply t_do_nc. intros s HP Hc. destruct (H2 s HP Hc) as [G Q]. split; [split; assumption|exact Q]. Qed.
+
+Lemma is_hopeful_props : (forall (c : cand) x, is_hopeful A (with_vote c x) = is_hopeful A c) /\
+  (forall c : cand, is_hopeful A c = true -> cont c = true) /\ (forall c : cand, is_hopeful A c = true -> cst c <> Defeated).
+Proof.
+  split; [reflexivity|]. split; [apply hopeful_cont|]. intros c H E. unfold is_hopeful, in_state in H. rewrite E in H. discriminate.
+Qed.
+
+Lemma prf_batch_branch msg :
+  T3 GNI (Do (defeat_batch_in_ballot_order A cfg msg) ;;
+          Ite (fun s => nlen (hopefuls A s) <=? seats_left A cfg s) Break Skip ;;
+          Do (transfer_batch A cfg (is_hopeful A)) ;; Continue) GN GN GN.
+Proof.
+  eapply t_seq with (M := GND); [|eapply t_seq with (M := GND); [|eapply t_seq with (M := GN)]].
+  - apply (t_do_gn _ GNI BatchD); [intros s [H _]; exact H|]. intros s [[H Hc] HB] Hcf.
+    destruct (gh_defeat_batch_order msg s H HB) as (H1 & _ & HD). split; assumption.
+  - apply t_ite; [apply t_break'; intros s [[H _] _]; exact H|apply t_skip'; intros s [H _]; exact H].
+  - apply t_do_nc. intros s [[H Hc] HD] Hcf. destruct is_hopeful_props as (K1 & K2 & K3).
+    exact (gh_transfer_batch (is_hopeful A) s K1 K2 K3 H Hc HD).
+  - apply t_continue'. auto.
+Qed.
+
+Lemma prf_find_batch_triple : T3 GN (Do (prf_find_batch A cfg)) GNI GN GN.
+Proof.
+  apply t_do_nc. intros s [H Hc] _. split; [split; [apply (gh_same s); try reflexivity; exact H|exact Hc]|].
+  unfold prf_find_batch. destruct (cf_batch cfg); [|intros i []].
+  apply (batchin_of_hopefuls s _ (batch_defeat A cfg (pending_surplus A s) s)); [reflexivity|reflexivity|apply batch_defeat_hopeful].
+Qed.
+
+Theorem wigm_prf_triple : T3 Pre (wigm_prf A cfg) GN GN GN.
+Proof.
+  unfold wigm_prf. eapply t_seq; [apply (start_triple _ _ _ (fun _ => True)); apply droop_quota_eps_nonneg|].
+  eapply t_seq; [|apply pnc_triple; cbn [pnc]; pnc_split; intros s H _ _; [apply gh_unpend_all|apply gh_elect_or_defeat]; exact H].
+  eapply t_post; [|apply (t_while est (@crashed A) GN GN)]; [intros s [Hs|[Hs _]]; exact Hs|].
+  eapply t_pre; [intros s [Hs _]; exact Hs|].
+  eapply t_seq; [apply pnc_triple; cbn [pnc]; intros s H _ _; apply gh_new_round; exact H|].
+  eapply t_seq; [apply pnc_triple; cbn [pnc]; intros s H _ _; apply gh_elect_with_quota; [intros c; apply ge_quota_le|exact H]|].
+  eapply t_seq; [apply prf_find_batch_triple|].
+  eapply t_seq.
+  - apply t_ite; [eapply t_pre; [|apply prf_batch_branch]; intros s [Hs _]; exact Hs|apply t_skip'; intros s [[Hs _] _]; exact Hs].
+  - apply pnc_triple. cbn [pnc]. pnc_split.
+    + intros s H Hc Hcf. apply gh_transfer_high; try assumption; [apply bt_simple_logs|apply bt_simple_ok|apply rew_wigm_ok].
+    + intros s H Hc Hcf. apply gh_defeat_low; try assumption; [apply bt_simple_logs|apply bt_simple_ok].
+Qed.
+
+
+(* ---------- scotland ---------- *)
+Lemma gh_fold_elect_np m (l : list cand) (s : est) : GH s -> GH (fold_left (fun s c => elect A cfg (cid c) m false s) l s).
+Proof. intros H. apply gh_fold; [|exact H]. intros; apply gh_elect_np; assumption. Qed.
+Lemma gh_fold_defeat m (l : list cand) (s : est) : GH s -> GH (fold_left (fun s c => defeat A cfg (cid c) m s) l s).
+Proof. intros H. apply gh_fold; [|exact H]. intros; apply gh_defeat; assumption. Qed.
+
+Theorem scotland_triple : T3 Pre (scotland A cfg) GN GN GN.
+Proof.
+  unfold scotland. eapply t_seq; [apply (start_triple _ _ _ (fun _ => True)); intros q E; inversion E; subst; apply integer_quota_nonneg|].
+  apply pnc_triple. cbn [pnc]. pnc_split.
+  - intros s H _ _. apply gh_elect_with_quota; [intros c; apply ge_quota_le|exact H].
+  - intros s H _ _. apply gh_new_round; exact H.
+  - intros s H _ _. apply (gh_same s); try reflexivity; exact H.
+  - intros s H Hc Hcf. apply gh_transfer_high; try assumption; [apply scot_bt_logs|apply scot_bt_ok|apply rew_scot_ok].
+  - intros s H Hc Hcf. apply gh_defeat_low; try assumption; [apply scot_bt_logs|apply scot_bt_ok].
+  - intros s H _ _. apply gh_unpend_all; exact H.
+  - intros s H _ _. apply gh_fold_elect_np; exact H.
+  - intros s H _ _. apply gh_fold_defeat; exact H.
+Qed.
+
 End Ops.
 End Conserve.
